@@ -358,3 +358,114 @@ Proof.
   rewrite <- (app_nil_r (enc_sentinel x)). apply sentinel_roundtrip. exact H.
 Qed.
 
+(* ---- normalisation only touches empty filters ---------------------------------------------------------------- *)
+Lemma norm_nonempty f :
+  filter_empty f = false -> norm_filter_ptr (Some f) = Some f /\ norm_filter_val f = f.
+Proof. intros H. unfold norm_filter_ptr, norm_filter_val. rewrite H. split; reflexivity. Qed.
+
+(* an empty filter is what MarshalStream treats as absent: it is written as the single byte 0 *)
+Lemma enc_filter_empty f : filter_empty f = true -> enc_filter (Some f) = enc_filter None.
+Proof. intros H. unfold enc_filter. rewrite H. reflexivity. Qed.
+
+(* normalisation is idempotent: a decoded description encodes and decodes to itself *)
+Lemma norm_filter_ptr_idem o : norm_filter_ptr (norm_filter_ptr o) = norm_filter_ptr o.
+Proof.
+  unfold norm_filter_ptr. destruct o as [f|]; [|reflexivity].
+  destruct (filter_empty f) eqn:E; [reflexivity|]. rewrite E. reflexivity.
+Qed.
+
+(* ---- non-vacuity ------------------------------------------------------------------------------------------------ *)
+Definition w_filter : filter := mkFilter 1234 true 2 1 [[97]] [[98; 99]; []].
+Definition w_process : process :=
+  mkProcess [[47; 98; 105; 110]; [45; 99]] [47] [[65; 61; 49]] true 8 (-5) true [117] [] [112] (Some w_filter) [1; 2; 3].
+Definition w_sentinel : sentinel :=
+  mkSentinel w_filter [mkSpath 0 [42] []; mkSpath 1 [100] []; mkSpath 2 [97] []; mkSpath 3 [104] [[120]]; mkSpath 4 [122] [[97]; [98]]].
+
+Lemma wf_str_small b : len b <= 1000 -> wf_str b.
+Proof. unfold wf_str, MaxSlice. lia. Qed.
+
+Ltac wf_small :=
+  repeat match goal with
+  | |- _ /\ _ => split
+  | |- wf_list _ => split
+  | |- Forall _ [] => constructor
+  | |- Forall _ (_ :: _) => constructor
+  | |- wf_str _ => apply wf_str_small; vm_compute; discriminate
+  | |- wf_filter_opt (Some _) => unfold wf_filter_opt
+  | |- wf_filter _ => unfold wf_filter; cbn [f_pid f_session f_elevated f_exclude f_include]
+  | |- wf_spath _ => unfold wf_spath; cbn [sp_t sp_path sp_extra]
+  | |- is_u8 _ => unfold is_u8; cbn; lia
+  | |- is_u32 _ => unfold is_u32; cbn; lia
+  | |- is_i64 _ => unfold is_i64; cbn; lia
+  | |- _ <= _ => vm_compute; discriminate
+  end.
+
+Lemma nonvacuous_witness :
+  wf_process w_process /\ wf_sentinel w_sentinel /\
+  dec_process zero_process (enc_process w_process ++ [7; 7]) = Ok (w_process, [7; 7]) /\
+  dec_sentinel zero_sentinel (enc_sentinel w_sentinel ++ [9]) = Ok (w_sentinel, [9]) /\
+  enc_process w_process <> enc_process zero_process.
+Proof.
+  split; [unfold wf_process, w_process, w_filter; cbn [p_args p_dir p_env p_flags p_timeout p_user p_domain p_pass p_filter p_stdin
+            f_pid f_session f_elevated f_exclude f_include]; wf_small|].
+  split; [unfold wf_sentinel, w_sentinel, w_filter; cbn [s_filter s_paths sp_t sp_path sp_extra
+            f_pid f_session f_elevated f_exclude f_include]; wf_small|].
+  split; [vm_compute; reflexivity|]. split; [vm_compute; reflexivity|]. vm_compute. discriminate.
+Qed.
+
+(* ---- one statement for every description type ------------------------------------------------------------------ *)
+Lemma desc_roundtrip d rest :
+  wf_desc d -> (forall f es, d <> DScript f es) ->
+  dec_desc (zero_of d) (enc_desc d ++ rest) = Ok (norm_desc d, rest).
+Proof.
+  intros H Hs. destruct d; cbn [zero_of dec_desc enc_desc norm_desc wf_desc] in *.
+  - rewrite process_roundtrip by exact H. reflexivity.
+  - rewrite dll_roundtrip by exact H. reflexivity.
+  - rewrite zombie_roundtrip by exact H. reflexivity.
+  - rewrite asm_roundtrip by exact H. reflexivity.
+  - rewrite dec_filter_ptr_enc by exact H. reflexivity.
+  - rewrite dec_filter_val_enc by exact H. reflexivity.
+  - rewrite sentinel_roundtrip by exact H. reflexivity.
+  - exfalso. eapply Hs. reflexivity.
+Qed.
+
+(* ---- the launcher file through a reader that delivers it in pieces ---------------------------------------------- *)
+Lemma t_take_app_le {A} (a b : list A) n : 0 <= n <= len a -> take n (a ++ b) = take n a.
+Proof.
+  intros H. unfold take, len in *. rewrite firstn_app.
+  replace (Z.to_nat n - length a)%nat with 0%nat by lia. cbn. apply app_nil_r.
+Qed.
+Lemma t_drop_app_le {A} (a b : list A) n : 0 <= n <= len a -> drop n (a ++ b) = drop n a ++ b.
+Proof.
+  intros H. unfold drop, len in *. rewrite skipn_app.
+  replace (Z.to_nat n - length a)%nat with 0%nat by lia. reflexivity.
+Qed.
+
+Lemma file_src_roundtrip (E : list Z -> list Z) iv x c cs :
+  wf_sentinel x -> concat (c :: cs) = write_file E iv x -> len iv <= len c ->
+  read_file_src E (len iv) zero_sentinel (c :: cs) = Ok (norm_sentinel x, []).
+Proof.
+  intros H Hc Hl. unfold write_file in Hc. cbn [concat] in Hc.
+  pose proof (len_nonneg iv) as Hn.
+  assert (Ht : take (len iv) (c ++ concat cs) = iv) by (rewrite Hc; apply t_take_app; reflexivity).
+  assert (Hd : drop (len iv) (c ++ concat cs) = ctr_xor E iv (enc_sentinel x)) by (rewrite Hc; apply t_drop_app; reflexivity).
+  rewrite t_take_app_le in Ht by lia. rewrite t_drop_app_le in Hd by lia.
+  unfold read_file_src, read1.
+  destruct (len c <=? len iv) eqn:Ec.
+  - assert (Hcl : len c = len iv) by lia.
+    rewrite take_all in Ht by lia. subst c.
+    unfold drop in Hd. rewrite <- Hcl in Hd. unfold len in Hd. rewrite Nat2Z.id, skipn_all in Hd. cbn [app] in Hd.
+    rewrite Z.eqb_refl. cbn [negb]. rewrite Hd, ctr_roundtrip.
+    rewrite <- (app_nil_r (enc_sentinel x)). apply sentinel_roundtrip. exact H.
+  - rewrite Ht. rewrite Z.eqb_refl. cbn [negb concat]. rewrite Hd, ctr_roundtrip.
+    rewrite <- (app_nil_r (enc_sentinel x)). apply sentinel_roundtrip. exact H.
+Qed.
+
+(* the IV is fetched with ONE Read call: a first delivery shorter than the block is an error
+   whatever follows (an observation about Sentinel.Read, outside the property) *)
+Lemma file_src_short_first (E : list Z -> list Z) bs old c cs :
+  len c < bs -> read_file_src E bs old (c :: cs) = Err ErrUnexpectedEOF.
+Proof.
+  intros H. unfold read_file_src, read1. replace (len c <=? bs) with true by lia.
+  replace (len c =? bs) with false by lia. reflexivity.
+Qed.
